@@ -795,6 +795,7 @@ type NumStrCase struct {
 	Num     float64 `json:"num"`
 	CONVFMT string  `json:"convfmt"`
 	OFMT    string  `json:"ofmt"`
+	OutMode string  `json:"outmode,omitempty"` // "", csv, tsv: print converts numbers with OFMT in every output mode
 	Spec    string  `json:"spec,omitempty"`
 }
 
@@ -815,6 +816,7 @@ func genNumStr(t *rapid.T) NumStrCase {
 		}
 	}
 	c.CONVFMT, c.OFMT = fm("c"), fm("o")
+	c.OutMode = rapid.SampledFrom([]string{"", "", "csv", "tsv"}).Draw(t, "outmode")
 	switch rapid.IntRange(0, 5).Draw(t, "nk") {
 	case 0, 1:
 		c.Num = rapid.SampledFrom(numClasses).Draw(t, "class")
@@ -856,10 +858,20 @@ func runNumStr(x *h.Ctx, c NumStrCase) string {
 		return "harness: " + err.Error() + "\n" + prog
 	}
 	var out bytes.Buffer
-	if _, err := interp.ExecProgram(p, &interp.Config{Stdin: strings.NewReader(""), Output: &out, Error: &out, Environ: []string{}}); err != nil {
+	ncfg := &interp.Config{Stdin: strings.NewReader(""), Output: &out, Error: &out, Environ: []string{}}
+	switch c.OutMode {
+	case "csv":
+		ncfg.OutputMode = interp.CSVMode
+	case "tsv":
+		ncfg.OutputMode = interp.TSVMode
+	}
+	if _, err := interp.ExecProgram(p, ncfg); err != nil {
 		return fmt.Sprintf("run-time error: %v\n%s", err, prog)
 	}
 	parts := strings.Split(strings.TrimSuffix(out.String(), "\n"), "|")
+	if len(parts) == 3 && c.OutMode != "" && len(parts[2]) >= 2 && strings.HasPrefix(parts[2], "\"") && strings.HasSuffix(parts[2], "\"") {
+		parts[2] = strings.ReplaceAll(parts[2][1:len(parts[2])-1], "\"\"", "\"") // a quoted CSV field
+	}
 	if len(parts) != 3 {
 		return fmt.Sprintf("harness: unexpected output %q", out.String())
 	}
@@ -880,7 +892,7 @@ func runNumStr(x *h.Ctx, c NumStrCase) string {
 		wantO, _ = libc.Format(c.OFMT, nil, cprintf.Double, n)
 	}
 	if parts[0] != wantC || parts[1] != wantC || parts[2] != wantO {
-		return fmt.Sprintf("number-to-string conversion differs from the value model\nprogram: %s\nconcatenation: %q  subscript: %q  (want %q via CONVFMT / exact integer)\nprint:         %q  (want %q via OFMT / exact integer)", prog, parts[0], parts[1], wantC, parts[2], wantO)
+		return fmt.Sprintf("number-to-string conversion differs from the value model (output mode %q)\nprogram: %s\nconcatenation: %q  subscript: %q  (want %q via CONVFMT / exact integer)\nprint:         %q  (want %q via OFMT / exact integer)", c.OutMode, prog, parts[0], parts[1], wantC, parts[2], wantO)
 	}
 	if n != math.Trunc(n) || math.Abs(n) >= 9007199254740992 {
 		x.Nontrivial("")
